@@ -14,6 +14,9 @@ Sections:
   spline     cubic_spline.c basis / boundary maps / transform
   oracles    tests only: histogram, routines, fff element-wise wrappers, permutations, lapack
 """
+import os
+os.environ.setdefault("OMP_NUM_THREADS", "1")          # before numpy: BLAS thread thrash under load
+os.environ.setdefault("OPENBLAS_NUM_THREADS", "1")
 import ctypes
 import itertools
 import math
@@ -1127,7 +1130,7 @@ def _spl_ref_sample(C, point, modes):
         axes.append(r)
     blk = C[np.ix_(*[a[0] for a in axes])].astype(float)
     for pos, wts in reversed(axes):
-        blk = blk @ wts
+        blk = (blk * wts).sum(axis=-1)      # no BLAS: tiny arrays, and BLAS threads thrash on a loaded machine
     return float(blk)
 
 
@@ -1281,6 +1284,7 @@ def _spl_correspondence(ck, R):
     t0 = time.time()
     res = ck.coq_bools(_SPL_HDR, terms, shard=400, name="spline")
     ck.cov["traces_validated_against_impl"] += len(res)
+    shown = set()
     for ok, m in zip(res, meta):
         if ok:
             continue
@@ -1290,9 +1294,14 @@ def _spl_correspondence(ck, R):
                     {"kind": "correspondence-broken", "source_literal": m[2]}, found_input=False)
             continue
         _, n, mode, x, k, v, exact, why = m
+        sig = "spline/model-vs-impl/mode=%s,%s,%s" % (mode, _spl_region(x, n), why)
+        if sig in shown:            # one printed model value (one coqc run) per signature
+            ck.fail(sig, "", {})
+            continue
+        shown.add(sig)
         mv = ck.coq_show(_SPL_HDR, "Qred (sample1d_fp %s %s (impulse %s %s))" % (
             cz(_SPL_MODENUM[mode]), cq(x), cnat(n), cnat(k)))
-        ck.fail("spline/model-vs-impl/mode=%s,%s,%s" % (mode, _spl_region(x, n), why),
+        ck.fail(sig,
                 "_cspline_sample1d on the unit impulse at %d of a length-%d coefficient array, x=%s, mode=%s returns %r; "
                 "the Coq model sample1d_fp gives %s (%s comparison)" % (k, n, x, mode, v, mv,
                                                                        "exact" if exact else "2^-51"),
@@ -1490,7 +1499,7 @@ _SPL_CHILD = r'''
 import sys, json
 sys.path.insert(0, %(verif)r)
 from harness import overlay as ov
-ov.install({"dir": %(ovdir)r, "modules": list(ov.MODULES)})      # the parent's overlay (no rebuild)
+ov.install(ov.build(want_cstat=True))      # same cache key as the parent's ck.overlay(cstat=True): cached, never a pruned path
 import numpy as np
 from nipy.algorithms.registration import _registration as R
 kind = sys.argv[1]
@@ -1531,6 +1540,10 @@ def _spl_layout_child(ck):
                "C": {"negative-stride": "np.ascontiguousarray(c[::-1])[::-1] with c=_cspline_transform(np.arange(1,7.)**2)",
                      "int64": "np.array([0,6,12,18,24,30], dtype=np.int64)",
                      "float32": "_cspline_transform(np.arange(1,7.)**2).astype(np.float32)"}[kind]}
+        if r.returncode != 0 and ("ModuleNotFoundError" in r.stderr or "ImportError" in r.stderr or "OSError" in r.stderr
+                                  or "RuntimeError" in r.stderr):
+            ck.note("spline: child process could not start (%s); nothing concluded" % r.stderr.strip()[-120:])
+            continue
         if r.returncode != 0:
             rep["returncode"] = r.returncode
             rep["stderr_tail"] = r.stderr[-400:]
@@ -1543,7 +1556,8 @@ def _spl_layout_child(ck):
             continue        # rejected with a Python exception: acceptable
         if not np.allclose(res["got"], res["expected"], rtol=0, atol=_SPL_TOL):
             rep.update(res)
-            ck.fail("spline/sample-coefficient-layout/%s,wrong-values" % kind,
+            ck.fail("spline/sample-coefficient-layout/non-double-dtype,wrong-values" if kind != "negative-stride"
+                    else "spline/sample-coefficient-layout/negative-stride,wrong-values",
                     "sampling a %s coefficient array returns %s; the same values as a contiguous double array give %s"
                     % (kind, res["got"], res["expected"]), rep)
 
@@ -1552,7 +1566,7 @@ _SPL_GUARD_CHILD = r"""
 import sys, json
 sys.path.insert(0, %(verif)r)
 from harness import overlay as ov
-ov.install({"dir": %(ovdir)r, "modules": list(ov.MODULES)})
+ov.install(ov.build(want_cstat=True))
 import numpy as np
 from nipy.algorithms.registration import _registration as R
 def say(**kw):
@@ -1596,6 +1610,10 @@ def _spl_guard(ck):
     last = json.loads(lines[-1]) if lines else {}
     ck.count(("spl-guard", len(lines)), bucket="spline:guard-child")
     if r.returncode == 0 and last.get("done"):
+        return True
+    if not lines and ("ModuleNotFoundError" in r.stderr or "ImportError" in r.stderr or "OSError" in r.stderr
+                      or "RuntimeError" in r.stderr):
+        ck.note("spline: guard child could not start (%s); in-process checks run unguarded" % r.stderr.strip()[-120:])
         return True
     feat = "%s,mode=%s,%s" % (last.get("call", "?"), last.get("mode", "-"),
                               _spl_region(last["x"], last["n"]) if "x" in last and "n" in last else "nd")
@@ -1665,6 +1683,23 @@ def _orc_close(a, b, tol=_ORC_TOL):
         return False
     return bool(np.all(np.abs(a - b) <= tol * np.maximum(1.0, np.abs(b)) + 0.0) or
                 np.array_equal(a, b))
+
+
+_ORC_QSIG = "oracle/fff_vector.quantile/"
+
+
+def _orc_qsig(n, r, interp):
+    """One signature per cause for every wrapper of fff_vector_quantile/median
+    (routines.quantile/median, linalg.vector_quantile/median, the C through ctypes):
+    interpolated case whose interval is the LAST pair of order statistics
+    (p = floor(r(n-1)) = n-2 with a fractional part) vs anything else."""
+    if not interp:
+        return _ORC_QSIG + ("noninterp,r=1" if r == 1.0 else "noninterp")
+    pp = r * (n - 1)
+    p = math.floor(pp)
+    if n >= 2 and pp - p > 0 and p == n - 2:
+        return _ORC_QSIG + "interp/last-interval(p=n-2)"
+    return _ORC_QSIG + ("interp/p<n-2" if pp - p > 0 else "interp/integer-rank")
 
 
 def _orc_views(a):
@@ -1763,7 +1798,7 @@ def _orc_routines(ck, rng):
                     for interp in (0, 1):
                         rep = {"call": "routines.quantile(x, r, interp, axis)", "x": x.tolist(), "r": r,
                                "interp": interp, "axis": axis, "layout": lname}
-                        sig = "oracle/routines.quantile/interp=%d,n%s" % (interp, "=%d" % nn if nn <= 2 else ">2")
+                        sig = _orc_qsig(nn, r, interp)
                         q = _orc_call(ck, sig, "quantile", rep, rt.quantile, xv.copy() if lname == "C" else xv, r,
                                       interp=interp, axis=axis)
                         n += 1
@@ -1782,11 +1817,11 @@ def _orc_routines(ck, rng):
                                 else np.take(srt, [p], axis=axis)
                         if not _orc_close(q, ref):
                             rep.update(got=np.asarray(q).tolist(), expected=np.asarray(ref).tolist())
-                            ck.fail(sig + (",r=1" if r == 1.0 else ""), "quantile differs from the sorted-sample definition", rep)
-                msig = "oracle/routines.median/n%s" % ("=%d" % shape[axis] if shape[axis] <= 2 else ">2")
+                            ck.fail(sig, "routines.quantile differs from the sorted-sample definition", rep)
+                msig = _orc_qsig(shape[axis], 0.5, 1) if shape[axis] % 2 == 0 else _ORC_QSIG + "median-odd"
                 m = _orc_call(ck, msig, "median", {"x": x.tolist(), "axis": axis}, rt.median, xv, axis=axis)
                 if m is not None and not _orc_close(m, np.median(x, axis=axis, keepdims=True)):
-                    ck.fail(msig, "median differs from np.median",
+                    ck.fail(msig, "routines.median differs from np.median",
                             {"x": x.tolist(), "axis": axis, "layout": lname, "got": np.asarray(m).tolist()})
     # mahalanobis, svd
     for d, K in [(1, 1), (2, 3), (3, 4), (5, 2)]:
@@ -1815,7 +1850,8 @@ def _orc_routines(ck, rng):
             n += 1
             ck.count(("rt-" + name, float(x)), bucket="oracle:routines." + name)
             if not abs(v - ref) <= _ORC_TOL * max(1.0, abs(ref)):
-                ck.fail("oracle/routines.%s/%s" % (name, _orc_xclass(x)), "%s(%r) = %r, scipy gives %r" % (name, x, v, ref),
+                ck.fail("oracle/fff_specfun.fff_psi/rel-error>1e-10" if name == "psi" else "oracle/routines.gamln/%s" % _orc_xclass(x),
+                        "routines.%s(%r) = %r, scipy gives %r" % (name, x, v, ref),
                         {"x": float(x), "got": v, "expected": ref})
     return n
 
@@ -1906,7 +1942,7 @@ def _orc_specfun_c(ck, lib):
             n += 1
             ck.count(("c-" + name, float(x)), bucket="oracle:specfun.%s:%s" % (name, _orc_xclass(x)))
             if not abs(v - ref) <= _ORC_TOL * max(1.0, abs(ref)):
-                ck.fail("oracle/fff_specfun.%s/%s" % (name, _orc_xclass(x)),
+                ck.fail("oracle/fff_specfun.fff_psi/rel-error>1e-10" if name == "fff_psi" else "oracle/fff_specfun.fff_gamln/%s" % _orc_xclass(x),
                         "%s(%r) = %r (current C through ctypes), scipy gives %r" % (name, float(x), v, ref),
                         {"call": "%s(x) in libcstat.so" % name, "x": float(x), "got": v, "expected": ref})
     return n
@@ -1968,7 +2004,14 @@ def _orc_perm_comb(ck, lib):
 _ORC_SVD_CHILD = r"""
 import sys, json, ctypes
 import numpy as np
-mode, libpath, X = sys.argv[1], sys.argv[2], np.array(json.loads(sys.argv[3]), dtype=float)
+mode, X = sys.argv[1], np.array(json.loads(sys.argv[3]), dtype=float)
+sys.path.insert(0, sys.argv[2])
+try:
+    from harness import overlay as ov
+    libpath = str(ov.build(want_cstat=True)["cstat"])      # cached; never a path that a concurrent check may prune
+    ctypes.CDLL(libpath)
+except Exception as e:
+    print(json.dumps({"setup_error": repr(e)})); sys.exit(0)
 m, n, K = X.shape
 if mode == "routines":
     import warnings; warnings.simplefilter("ignore")
@@ -2007,6 +2050,11 @@ else:
 """
 
 
+def _orc_verif_dir():
+    from harness import kit
+    return str(kit.VERIF)
+
+
 def _orc_svd_children(ck, jobs, sigbase):
     """Singular values of each (m, n, K) stack in its own child process: for m > n the C
     passes the wrong leading dimension to dgesdd, which overruns the matrix buffer."""
@@ -2015,7 +2063,7 @@ def _orc_svd_children(ck, jobs, sigbase):
     import sys
     procs = []
     for mode, X in jobs:
-        procs.append((X, subprocess.Popen([sys.executable, "-c", _ORC_SVD_CHILD, mode, str(ck.ov["cstat"]), json.dumps(X.tolist())],
+        procs.append((X, subprocess.Popen([sys.executable, "-c", _ORC_SVD_CHILD, mode, _orc_verif_dir(), json.dumps(X.tolist())],
                                           stdout=subprocess.PIPE, stderr=subprocess.PIPE, text=True)))
     for X, p in procs:
         try:
@@ -2027,15 +2075,22 @@ def _orc_svd_children(ck, jobs, sigbase):
         feat = "m<n" if m_ < n_ else ("m>n" if m_ > n_ else "square")
         ref = np.stack([np.linalg.svd(X[:, :, k], compute_uv=False) for k in range(K)], axis=1)
         rep = {"call": "svd of each X[:, :, k] (%s)" % sigbase.split("/")[1], "X": X.tolist(), "expected": ref.tolist()}
+        if p.returncode != 0 and ("ModuleNotFoundError" in err or "ImportError" in err or "OSError" in err):
+            ck.note("oracles: svd child could not start (%s); nothing concluded" % err.strip()[-120:])
+            continue
         if p.returncode != 0:
             rep.update(returncode=p.returncode, stderr_tail=err[-300:])
-            ck.fail("%s/%s,crash" % (sigbase, feat),
+            ck.fail("oracle/fff_lapack.dgesdd/m>n,heap-corruption" if m_ > n_ else "%s/%s,crash" % (sigbase, feat),
                     "SVD of a %dx%d matrix kills the interpreter (exit status %s: %s)" % (m_, n_, p.returncode, err.strip()[-80:]), rep)
             continue
         res = json.loads(out.strip().splitlines()[-1])
+        if "setup_error" in res:
+            ck.note("oracles: svd child could not load libcstat (%s); nothing concluded" % res["setup_error"][:120])
+            continue
         if res["info"] != 0 or not _orc_close(res["s"], ref):
             rep.update(got=res["s"], info=res["info"])
-            ck.fail("%s/%s" % (sigbase, feat), "singular values differ from numpy.linalg.svd", rep)
+            ck.fail("oracle/fff_lapack.dgesdd/m>n,heap-corruption" if m_ > n_ else "%s/%s" % (sigbase, feat),
+                    "singular values of a %dx%d matrix differ from numpy.linalg.svd (%s)" % (m_, n_, sigbase.split("/")[1]), rep)
 
 
 def _orc_lapack_c(ck, lib, rng):
@@ -2080,10 +2135,12 @@ def _orc_lapack_c(ck, lib, rng):
             lib.fff_vector_delete(v)
             n += 1
             ck.count(("c-vec", x.tobytes()), bucket="oracle:fff_vector:reductions")
-            if s_ != x.sum() or sad != np.abs(x - 1.0).sum() or med != float(np.median(x)):
-                ck.fail("oracle/fff_vector.sum-sad-median/n%s" % ("=%d" % size if size <= 2 else (">2,odd" if size % 2 else ">2,even")),
-                        "fff_vector_sum/sad/median = %r/%r/%r, numpy %r/%r/%r" % (s_, sad, med, x.sum(), np.abs(x - 1).sum(), np.median(x)),
-                        {"x": x.tolist()})
+            if s_ != x.sum() or sad != np.abs(x - 1.0).sum():
+                ck.fail("oracle/fff_vector.sum-sad/n%s" % ("=%d" % size if size <= 2 else ">2"),
+                        "fff_vector_sum/sad = %r/%r, numpy %r/%r" % (s_, sad, x.sum(), np.abs(x - 1).sum()), {"x": x.tolist()})
+            if med != float(np.median(x)):
+                ck.fail(_orc_qsig(size, 0.5, 1) if size % 2 == 0 else _ORC_QSIG + "median-odd",
+                        "fff_vector_median(%s) = %r, np.median = %r" % (x.tolist(), med, float(np.median(x))), {"x": x.tolist()})
             for r in (0.0, 0.25, 0.5, 0.75, 1.0):
                 for interp in (0, 1):
                     v = _orc_vec(lib, x)
@@ -2098,7 +2155,7 @@ def _orc_lapack_c(ck, lib, rng):
                         p = math.ceil(r * size)
                         ref = math.inf if p == size else float(srt[p])
                     if not (q == ref or abs(q - ref) <= _ORC_TOL):
-                        ck.fail("oracle/fff_vector.quantile/interp=%d,n%s%s" % (interp, "=%d" % size if size <= 2 else ">2", ",r=1" if r == 1.0 else ",r=%g" % r),
+                        ck.fail(_orc_qsig(size, r, interp),
                                 "fff_vector_quantile(x, %r, %d) = %r, definition gives %r" % (r, interp, q, ref),
                                 {"x": x.tolist(), "r": r, "interp": interp, "got": q, "expected": ref})
     return n
@@ -2145,8 +2202,10 @@ def _orc_bindings(ck, rng):
         n += 1
         ck.count(("fff_type", np.dtype(dt).name), bucket="oracle:bindings.fff_type")
         if got is not None and tuple(got) != (_ORC_CNAMES[dt], np.dtype(dt).itemsize):
-            ck.fail("oracle/bindings.wrapper.fff_type/%s" % np.dtype(dt).name,
-                    "fff_type(dtype('%s')) = %s, the C type of that dtype is (%r, %d)"
+            swapped = {np.int32: "unsigned int", np.uint32: "int"}
+            sig = "oracle/bindings.wrapper.fff_type/int-uint-labels-swapped" if swapped.get(dt) == got[0] \
+                else "oracle/bindings.wrapper.fff_type/%s" % np.dtype(dt).name
+            ck.fail(sig, "fff_type(dtype('%s')) = %s, the C type of that dtype is (%r, %d)"
                     % (np.dtype(dt).name, tuple(got), _ORC_CNAMES[dt], np.dtype(dt).itemsize),
                     {"call": "wrapper.fff_type(np.dtype(%r))" % np.dtype(dt).name, "got": list(got)})
     for t in W.c_types:
@@ -2171,6 +2230,9 @@ def _orc_bindings(ck, rng):
                 xf, yf = x.astype(float), y.astype(float)
                 fresh = lambda: dict(_orc_views(x))[lname]      # vector_median/quantile partially sort a double input in place
                 pre = "oracle/bindings.%s/" + "n%s|%s" % ("=%d" % size if size <= 2 else ">2", lname)
+                qs = {"linalg.vector_median": _orc_qsig(size, 0.5, 1) if size % 2 == 0 else _ORC_QSIG + "median-odd",
+                      "linalg.vector_quantile(.25,interp)": _orc_qsig(size, 0.25, 1),
+                      "linalg.vector_quantile(.5,no-interp)": _orc_qsig(size, 0.5, 0)}
                 for name, f, ref in (("wrapper.pass_vector", lambda: W.pass_vector(xv), xf),
                                      ("wrapper.copy_vector(flag=0)", lambda: W.copy_vector(xv, 0), xf),
                                      ("wrapper.copy_vector(flag=1)", lambda: W.copy_vector(xv, 1), xf),
@@ -2188,8 +2250,15 @@ def _orc_bindings(ck, rng):
                                      ("linalg.vector_quantile(.25,interp)", lambda: L.vector_quantile(fresh(), 0.25, 1), np.quantile(xf, 0.25)),
                                      ("linalg.vector_quantile(.5,no-interp)", lambda: L.vector_quantile(fresh(), 0.5, 0),
                                       np.sort(xf)[math.ceil(0.5 * size)] if size > 1 else xf[0])):
-                    sig = pre % name
+                    sig = (qs[name] + "|C") if name in qs else pre % name
                     got = _orc_call(ck, sig.replace('|', ','), name, rep, f)
+                    if name == "linalg.vector_div" and got is not None and np.array_equal(np.asarray(got), xf * yf) \
+                            and not np.array_equal(xf * yf, xf / yf):
+                        ck.fail("oracle/bindings.linalg.vector_div/calls-fff_vector_mul",
+                                "linalg.vector_div(%s, %s) = %s: the product x*y, not the quotient" % (x.tolist(), y.tolist(), np.asarray(got).tolist()),
+                                dict(rep, got=np.asarray(got).tolist(), expected=(xf / yf).tolist()))
+                        n += 1
+                        continue
                     check(sig, name, got, ref, rep, exact=not name.startswith("linalg.vector_ssd"))
                 got = _orc_call(ck, (pre % "linalg.vector_ssd(free)").replace("|", ","), "vector_ssd", rep, L.vector_ssd, xv, 0.0, 0)
                 check(pre % "linalg.vector_ssd(free)", "vector_ssd(fixed=0)", got, ((xf - xf.mean()) ** 2).sum(), rep, exact=False)
